@@ -322,6 +322,9 @@ class DataFormat(object):
         if name == KEY_ENCODING:
             try:
                 codecs.lookup(value)
+                # Codecs that do not convert between text and bytes, for example 'rot13' or 'hex', cannot be
+                # used to read or write data; encoding a text with them fails.
+                "".encode(value)
             except (LookupError, ValueError):
                 raise errors.InterfaceError(
                     "value for data format property %s is %s but must be a valid encoding"
